@@ -267,7 +267,7 @@ def judge(ctx, base, name, case, tmo=300, bisect=True):
     ft = features(case, evs, info2)
     if ft:
         key += ":" + ":".join(ft)
-    if evs[-1][0].split()[1] in tigen.COLLS + ["reducescatterblock", "gatherz", "scatterz"] and culprit != "barrier":
+    if evs[-1][0].split()[1] in tigen.COLLS + ["reducescatterblock", "gatherz", "scatterz"]:
         if selector(case["cfg"]):
             key += ":selector=" + selector(case["cfg"])
         if overheads(case["cfg"]):
